@@ -37,11 +37,19 @@ func c09(c *Ctx) (*report.Result, error) {
 	res.RuleDoc["O9.5"] = "a claim is stamped when it is made: every registration stores (and returns) that call's own time.Now() in localShards, so the stamp an incoming announcement is compared with is never older than the claim this instance last announced (a re-registration that keeps the old stamp lets a stale announcement evict the newest claim)"
 	checkFreshTokens(c, res, "O9.5")
 	checkLeave(c, res)
+	res.RuleDoc["O9.8"] = "a node always advertises a state that replaces its previous one: NodeMeta (also the push/pull LocalState) returns an empty buffer only when there is no manager/memberlist configuration or marshalling failed - memberlist does not deliver an empty state to MergeRemoteState, so a node that stopped owning shards and advertised nothing would stay listed with its old shards in every peer's table for ever"
+	checkNodeMetaNeverEmpty(c, res, "O9.8")
+	res.RuleDoc["O9.9"] = "routing cannot wedge on the registries' locks: no critical section of package proxy re-acquires its own mutex and the mutexes nest in one order (same analysis as O8.6)"
+	if spx, err := c.Prog.SSAPkg("proxy"); err == nil {
+		checkReentrancy(c, res, "O9.9", []*ssa.Package{spx}, func(key string) bool {
+			return !strings.HasPrefix(key, "ReplicationStreamObserver.") && !strings.HasPrefix(key, "StreamTracker.")
+		})
+	}
 	res.RuleDoc["O9.7"] = "the local-claim table is keyed injectively by (cluster id, shard id) (same analysis as O8.9): an announcement for one shard can only evict the local claim of that very shard"
 	checkShardKeyFunction(c, res, "O9.7")
 	res.RuleDoc["O9.6"] = "intra-proxy streams are pruned only when nobody claims their shard pair any more: in ReconcilePeerStreams a registered receiver/sender entry is queued for closing only on the 'key absent from the desired map' outcome - the desired maps hold one (arbitrary) peer per key, so while two peers claim a shard a test on the peer's name would prune the newest owner's stream, which is never re-created from this side"
 	checkReconcilePrune(c, res, "O9.6")
-	checkIntraSenders(c, res)
+	checkIntraSenders(c, res, "O9.4")
 
 	res.Explanation = "SSA of shardManagerImpl.DeliverMessagesToShardOwner / DeliverAckToShardOwner (what dominates each `return true`, reachability from the completed local hand-off to the remote forward, order of local attempt and owner lookup; the `delivered` flag is a closure-captured cell whose single store is located in the send arm of the select), of shardDelegate.NotifyMsg (control dependence of the local unregistration on Created.Before(msg.Timestamp)), of shardEventDelegate.NotifyLeave / getShardOwner / GetRemoteShardsForPeer, and of intraProxyManager.sendReplicationMessages / sendAck (nil only after a successful stream send). Decides the routing clause ('delivered, or reported undelivered; never both local and remote'); convergence of ownership under arbitrary orders, duplications and delays of gossip messages is a statement over histories and is not decided."
 	res.Assumptions = []string{"memberlist delivers NotifyLeave for departed nodes", "a send arm that fired has handed the message to the channel"}
@@ -439,8 +447,7 @@ func checkLeave(c *Ctx, res *report.Result) {
 	}
 }
 
-func checkIntraSenders(c *Ctx, res *report.Result) {
-	rule := "O9.4"
+func checkIntraSenders(c *Ctx, res *report.Result, rule string) {
 	for _, spec := range []struct{ name, inner string }{{"sendReplicationMessages", "sendReplicationMessages"}, {"sendAck", "sendAck"}} {
 		f := resolve(c, res, rule, anchor{"proxy", "*intraProxyManager", spec.name})
 		if f == nil {
@@ -458,6 +465,67 @@ func checkIntraSenders(c *Ctx, res *report.Result) {
 		if len(inner) == 0 {
 			res.Viol(rule, "intraProxyManager."+spec.name+": stream send", fnPos(c.Prog, f), "the manager never calls the peer stream's send")
 			continue
+		}
+		// the stream used is the one registered for exactly this (target shard, source shard) pair: the peer credits
+		// what arrives on a stream to that stream's pair, so a message or ack sent over "any stream to the same peer"
+		// is attributed to another target shard
+		for _, ic := range inner {
+			var origins []string
+			seen := map[ssa.Value]bool{}
+			var walk func(v ssa.Value, d int)
+			walk = func(v ssa.Value, d int) {
+				v = flow.Strip(flow.ResolveLoad(v))
+				if v == nil || seen[v] || d > 8 {
+					return
+				}
+				seen[v] = true
+				switch x := v.(type) {
+				case *ssa.Phi:
+					for _, e := range x.Edges {
+						walk(e, d+1)
+					}
+				case *ssa.Const:
+					// nil
+				case *ssa.Extract:
+					if lk, isL := x.Tuple.(*ssa.Lookup); isL && x.Index == 0 {
+						_, fld, _ := flow.FieldLoadOf(lk.X)
+						keyDesc := "?"
+						if kl := flow.ResolveLoad(lk.Index); kl != nil {
+							if ld, isLd := kl.(*ssa.UnOp); isLd {
+								if al, isAl := ld.X.(*ssa.Alloc); isAl {
+									fs, _ := flow.FieldStores(al)
+									t, okT := fs["targetShard"].(*ssa.Parameter)
+									sv, okS := fs["sourceShard"].(*ssa.Parameter)
+									if okT && okS && len(f.Params) >= 5 && t == f.Params[3] && sv == f.Params[4] {
+										keyDesc = "own pair"
+									} else {
+										keyDesc = "another key"
+									}
+								}
+							}
+						}
+						origins = append(origins, fld+"["+keyDesc+"]")
+					} else if _, isN := x.Tuple.(*ssa.Next); isN {
+						origins = append(origins, "range over the table")
+					} else {
+						origins = append(origins, "?"+flow.Describe(x))
+					}
+				case *ssa.Lookup:
+					origins = append(origins, "lookup")
+				default:
+					origins = append(origins, "?"+flow.Describe(v))
+				}
+			}
+			if len(ic.Call.Args) > 0 {
+				walk(ic.Call.Args[0], 0)
+			}
+			okPair := len(origins) > 0
+			for _, o := range origins {
+				if !strings.HasSuffix(o, "[own pair]") {
+					okPair = false
+				}
+			}
+			res.Check(okPair, rule, "intraProxyManager."+spec.name+": the stream used is the one registered for this (target, source) pair", instrPos(c.Prog, ic), strings.Join(origins, ", "), "the stream on which the "+spec.name+" is sent can come from "+strings.Join(origins, ", ")+": the peer attributes what it receives to the stream's own shard pair, so another target shard's acknowledgement level is overwritten (or another target receives the tasks)")
 		}
 		for _, b := range f.Blocks {
 			if b == f.Recover {
@@ -532,4 +600,53 @@ func checkReconcilePrune(c *Ctx, res *report.Result, rule string) {
 	if n < 2 {
 		res.Undec(rule, "ReconcilePeerStreams: prune decisions", fnPos(c.Prog, f), fmt.Sprintf("%d found, 2 confirmed by hand (receivers, senders)", n))
 	}
+}
+
+// checkNodeMetaNeverEmpty: see O9.8.
+func checkNodeMetaNeverEmpty(c *Ctx, res *report.Result, rule string) {
+	f := resolve(c, res, rule, anchor{"proxy", "*shardDelegate", "NodeMeta"})
+	if f == nil {
+		return
+	}
+	n := 0
+	for _, b := range f.Blocks {
+		if b == f.Recover || len(b.Instrs) == 0 {
+			continue
+		}
+		ret, ok := b.Instrs[len(b.Instrs)-1].(*ssa.Return)
+		if !ok || len(ret.Results) != 1 {
+			continue
+		}
+		v := flow.Ret(ret)[0]
+		if !flow.IsNilConst(v) {
+			continue
+		}
+		n++
+		okGuard := false
+		var gtxt []string
+		for _, pred := range append([]*ssa.BasicBlock{}, b.Preds...) {
+			_ = pred
+		}
+		// every way into the block must be one of the reviewed reasons
+		allEdges := true
+		for _, pred := range b.Preds {
+			edgeOK := false
+			for _, g := range flow.NormGuards(flow.EdgeGuards(pred, b)) {
+				k := classifyCond(g.Cond, g.Side)
+				gtxt = append(gtxt, k.String())
+				if (k.kind == "nil" || k.kind == "nilval") && k.truth {
+					edgeOK = true
+				}
+				if k.kind == "errnil" && !k.truth {
+					edgeOK = true
+				}
+			}
+			if !edgeOK {
+				allEdges = false
+			}
+		}
+		okGuard = allEdges && len(b.Preds) > 0
+		res.Check(okGuard, rule, fmt.Sprintf("NodeMeta: empty state #%d only without a manager/configuration or after a marshal error", n), instrPos(c.Prog, ret), "guarded by a nil test or err != nil", "NodeMeta can return an empty state for another reason ("+strings.Join(gtxt, "; ")+"): memberlist never hands an empty state to MergeRemoteState, so the peers keep this node's previous shard list - a node that lost its shards to a newer claim stays their owner in every peer's view")
+	}
+	res.Analysed["nodemeta_nil_returns"] = n
 }
